@@ -307,7 +307,7 @@ def run(chk):
             chk.count(1, None)
     chk.nontrivial.add(("lang-lines", nlang))
     # (4) tomography constructors
-    tev = tomo_events(chk, 3 if quick else 4)
+    tev = tomo_events(chk, 4)
     bad = _validate(chk, tev, "tomography")
     for l in bad:
         ev = tev[l - 1]
